@@ -323,6 +323,9 @@ void constructCommon(ModelSignature model,
 
         load_complete(); // flush completed jobs
     }
+
+    // the main checkpoint holds the final state, the backup is stale now and must not be picked up by a later run
+    if (!filename.empty()) std::remove(filename_old.c_str());
 }
 
 /*!
